@@ -2,6 +2,25 @@
 over the shards; budgets are case counts, never time."""
 
 PROPS = {
+    "C09": {
+        "pkg": "c09", "needs_gw": False, "level": "exploration",
+        "technique": "stateful property-based testing (rapid) against a version-stack model: put / copy / multipart-complete / delete / delete-by-version / get-by-version / list-versions (paged) / enable / suspend programs incl. objects that predate enabling",
+        "level_text": ("Generated programs (0-3 steps before enabling, then 3-16 steps) on 3 keys of a bucket of a gateway with a versioning directory "
+                       "(xattr or sidecar metadata): put, copy onto, multipart completion onto, delete (marker), delete by version id (current, "
+                       "non-current, marker, null, unknown), get, get by version id, ListObjectVersions with prefix and max-keys 1..1000 followed "
+                       "through NextKeyMarker / NextVersionIdMarker to the end, suspend and re-enable. Model: per key a stack of versions and "
+                       "markers (enabled: every write pushes a fresh distinct id; otherwise the null version is replaced). After every step GET of "
+                       "every key equals the top of its stack (404 for a marker / nothing), at the end every live version is retrievable byte-"
+                       "exact with its own metadata under its id, and the complete version listing equals the model: same (key, id) set, versions "
+                       "vs markers, exactly the top flagged latest, no duplicates, pagination terminates."),
+        "level_note": "a delete of a key that never existed may or may not create a marker (both accepted); directory-marker keys are excluded by the statement. In-process engine. Exploration only.",
+        "rule": ("case = (sidecar, pre ops, ops). Non-trivial: the program deletes the current version / marker while older entries exist, or a null version "
+                 "predates enabling; distinct by the full case."),
+        "assumptions": ["in-process engine replicates runGateway wiring", "version order relies on ULID ids (same process)"],
+        "jobs": [
+            {"run": "TestC09A", "quick": 12000, "thorough": 600000, "shards_quick": 16, "shards_thorough": 16},
+        ],
+    },
     "C08": {
         "pkg": "c08", "needs_gw": False, "level": "exploration",
         "technique": "stateful property-based testing (rapid) against an upload/part model: interleaved create / upload-part / upload-part-copy / list / complete / abort programs over several uploads (also on one key); oracle = concatenation hash, multipart ETag, metadata, isolation and disappearance of uploads",
